@@ -332,6 +332,11 @@ def main():
             {'name': 'TLC 1.8 (tla2tools.jar)', 'path': '/opt/veriftools/tla/tla2tools.jar',
              'serves_properties': sorted(CHECKS), 'kind_free_text': 'explicit-state model checker for the TLA+ modules '
              'in spec/; also judges recorded observations and validates traces'},
+            {'name': 'Apalache 0.58 (apalache-mc)', 'path': '/usr/local/bin/apalache-mc', 'serves_properties': ['C13'],
+             'kind_free_text': 'symbolic (SMT) checker for TLA+: the induction steps of the interval algebra of '
+             'spec/IntervalLemmas.tla for unbounded integers (length-0 invariant checks); auxiliary - TLC and the '
+             'replay decide the property, an obligation Apalache does not discharge in its time limit is reported in '
+             'the evidence, never assumed'},
         ],
         'checks': checks,
         'not_applicable': na,
